@@ -880,8 +880,19 @@ pub fn eval_real(module: &ir::Module, e: &ir::Expression) -> Obs {
     match guard(move || evaluate_constexpr(&e, &mut m)) {
         Ok(Ok(c)) => Obs::Val(k_of_const(&c)),
         Ok(Err(())) => Obs::NotConst,
-        Err(p) => Obs::Panic(p),
+        Err(p) => Obs::Panic(norm_panic(&p)),
     }
+}
+
+/// `file:line: message` with the file made relative to the repository whatever directory it was built from
+fn norm_panic(p: &str) -> String {
+    for root in ["/typer/src/", "/ir/src/", "/parser/src/", "/preprocess/src/", "/ast/src/", "/text/src/",
+                 "/formatter/src/", "/hlsl/src/", "/msl/src/"] {
+        if let Some(i) = p.find(root) {
+            return p[i + 1..].to_string();
+        }
+    }
+    p.to_string()
 }
 
 fn panic_msg(p: &str) -> String {
@@ -936,7 +947,7 @@ impl World {
         let m = match guard(|| front_end_src(&text)) {
             Ok(Ok(m)) => m,
             Ok(Err(e)) => return Err(format!("reject:{}:{}", e.stage(), e.text())),
-            Err(p) => return Err(format!("panic:{}", p)),
+            Err(p) => return Err(format!("panic:{}", norm_panic(&p))),
         };
         let mut found = None;
         for id in m.function_registry.iter() {
@@ -1137,7 +1148,7 @@ fn observe_position(pos: &str, src: &str) -> Result<String, String> {
         Ok(Err(e)) => {
             return Ok(format!("reject:{}", err_kind(&format!("reject:{}:{}", e.stage(), e.text()))));
         }
-        Err(p) => return Ok(format!("panic:{}", p)),
+        Err(p) => return Ok(format!("panic:{}", norm_panic(&p))),
     };
     Ok(match pos {
         "array" => {
@@ -1357,7 +1368,7 @@ fn run_position(w: &World, pos: &str, src: &str, out: &mut Out, hist: &mut Hist)
         let obs = match guard(|| front_end_src(&text)) {
             Ok(Ok(_)) => "accept".to_string(),
             Ok(Err(e)) => format!("reject:{}", err_kind(&format!("reject:{}:{}", e.stage(), e.text()))),
-            Err(p) => format!("panic:{}", p),
+            Err(p) => format!("panic:{}", norm_panic(&p)),
         };
         let verdict = if obs == "accept" {
             "ok".to_string()
